@@ -54,7 +54,7 @@ def main(path):
             ops.append(("build", [(f, decode(v)) for f, v in o[1]]))
         elif o[0] == "new":
             ops.append(tuple(o[:6]) + (decode(o[6]),))
-        elif o[0] in ("n", "b", "i"):
+        elif o[0] in ("n", "b", "i", "j"):
             ops.append((o[0], o[1]) + tuple(decode(v) for v in o[2:]))
         else:
             ops.append(tuple(o))
